@@ -8,6 +8,7 @@ two functions to the SimNet of the running loop.
 from __future__ import annotations
 
 import asyncio
+import collections
 import contextvars
 import random
 import types
@@ -101,6 +102,9 @@ class SimTransport(asyncio.Transport):
         self._rpaused = False
         self._rxq: list[bytes] = []
         self._rx_pending = 0
+        # in-flight items towards US, strictly FIFO: (when, kind, payload)
+        self._inflight: collections.deque = collections.deque()
+        self._inflight_handle = None
         self._blackhole = False
         self._broken_exc: Optional[BaseException] = None
         self.closed_at: Optional[float] = None
@@ -196,7 +200,7 @@ class SimTransport(asyncio.Transport):
         if not self._blackhole and not self.peer._lost:
             t = max(self._tx_last, now) + self.net.fin_latency
             self._tx_last = t
-            self.net.loop.call_at(t, self.peer._peer_eof)
+            self.peer._enqueue(t, 'eof', None)
         self.net.loop.call_soon(self._conn_lost, None)
 
     def _seg_size(self, avail: int) -> int:
@@ -230,7 +234,7 @@ class SimTransport(asyncio.Transport):
             lat = lo if hi <= lo else self.net.rng.uniform(lo, hi)
             t = max(self._tx_last, loop.time()) + lat
             self._tx_last = t
-            loop.call_at(t, peer._deliver, chunk)
+            peer._enqueue(t, 'data', chunk)
         if self._blackhole:
             # bytes vanish silently
             self._out.clear()
@@ -245,6 +249,25 @@ class SimTransport(asyncio.Transport):
         if self._closing and not self._lost and not self._out and not getattr(self, '_close_finished', False):
             self._close_finished = True
             self._finish_close()
+
+    def _enqueue(self, when: float, kind: str, payload):
+        """TCP never reorders: one timer for the head of the queue; equal
+        timestamps keep their order (a heap of timers would not)."""
+        self._inflight.append((when, kind, payload))
+        if self._inflight_handle is None:
+            self._inflight_handle = self.net.loop.call_at(when, self._inflight_due)
+
+    def _inflight_due(self):
+        self._inflight_handle = None
+        now = self.net.loop.time()
+        while self._inflight and self._inflight[0][0] <= now:
+            _, kind, payload = self._inflight.popleft()
+            if kind == 'data':
+                self._deliver(payload)
+            else:
+                self._peer_eof()
+        if self._inflight:
+            self._inflight_handle = self.net.loop.call_at(self._inflight[0][0], self._inflight_due)
 
     def _deliver(self, chunk: bytes):
         if self._lost or self._closing or self._rx_eof or self.conn.cut_done:
@@ -335,6 +358,7 @@ class SimNet:
         self.on_deliver: Optional[Callable] = None
         self.window = WINDOW
         self.rst_latency = 0.002
+        self.rto = 900.0
         self.fin_latency = 0.002
         self.bytes_written = 0
         self.bytes_delivered = 0
@@ -441,10 +465,14 @@ class SimNet:
             for tr in (a, b):
                 tr._out.clear()
                 self.loop.call_soon(tr._conn_lost, ConnectionResetError(104, 'Connection reset by peer'))
-        elif mode == 'blackhole':
+        elif mode in ('blackhole', 'timeout'):
             for tr in (a, b):
                 tr._blackhole = True
                 tr._out.clear()
+            if mode == 'timeout':
+                # silent loss; the kernel gives up retransmitting after rto seconds
+                for tr in (a, b):
+                    self.loop.call_later(self.rto, tr._conn_lost, TimeoutError(110, 'Connection timed out'))
         elif mode == 'eof':
             # the receiver of direction d sees an orderly FIN exactly at the
             # counted byte, the sender of that direction sees an RST
